@@ -7,22 +7,26 @@ import random
 import common  # noqa: F401
 import sympy as sp
 import uneval_ir as U
+from ampform.sympy import UnevaluatedExpression, create_expression, implement_doit_method
 
 SYMS = ["Symbol('x')", "Symbol('y')", "Symbol('s')", "Symbol('m1')", "Symbol('m2')", "Symbol('L')",
         "Symbol('m0', positive=True)", "Symbol('w', real=True)", "Symbol('d', nonnegative=True)"]
-NUMS = [(1, 1), (2, 1), (3, 1), (3, 2), (5, 4), (7, 3), (0, 1), (-1, 1), (1, 2)]
+NUMS = [(1, 1), (2, 1), (3, 1), (3, 2), (5, 4), (7, 3), (-1, 1), (1, 2)]  # no 0: masses of 0 give zoo/nan
 STRS = ["rho", "K^*", "builtins.NoneTyp", "a.b"]
 
 
-def attr_pool(fname):
+def attr_pool(fname, picklable=False):
     from ampform.dynamics import phasespace as ps
 
+    # distinct function objects sharing one module.qualname (closures of one factory, lambdas of one scope)
+    twins = [] if picklable else [("o", "uneval_ir.CLOSURE_A"), ("o", "uneval_ir.CLOSURE_B"),
+                                  ("o", "uneval_ir.LAMBDA_A[0]"), ("o", "uneval_ir.LAMBDA_A[1]")]
     if fname == "phsp_factor":
         return [("c", U.qual(ps.PhaseSpaceFactor)), ("c", U.qual(ps.PhaseSpaceFactorSWave)),
                 ("c", U.qual(ps.EqualMassPhaseSpaceFactor)), ("c", U.qual(ps.PhaseSpaceFactorComplex)),
-                ("o", "uneval_ir.pool_function"), ("o", "uneval_ir.pool_function2")]
+                ("o", "uneval_ir.pool_function"), ("o", "uneval_ir.pool_function2")] + twins
     return [("n",), ("n",)] + [("s", s) for s in STRS] + [("c", "uneval_ir.PoolClass"),
-                                                           ("o", "uneval_ir.pool_function2"), ("u", "['a', 'b']")]
+                                                           ("o", "uneval_ir.pool_function2"), ("u", "['a', 'b']")] + twins[:2]
 
 
 def is_array_class(q):
@@ -35,6 +39,31 @@ def has_array(ir):
     return ir[0] in "AU" and any(has_array(a) for a in ir[2])
 
 
+def has_head(ir, head):
+    if ir[0] == "A" and ir[1] == head:
+        return True
+    return ir[0] in "AU" and any(has_head(a, head) for a in ir[2])
+
+
+POOLSUM = "ampform.sympy.PoolSum"
+TUPLE = "sympy.core.containers.Tuple"
+
+
+def pool_value_symbols(ir, acc=None, inside=False):
+    """symbols that occur in the index-VALUE tuples of a PoolSum"""
+    acc = set() if acc is None else acc
+    if ir[0] == "Y" and inside:
+        acc.add(ir[1])
+    elif ir[0] == "A" and ir[1] == POOLSUM:
+        pool_value_symbols(ir[2][0], acc, inside)
+        for idx in ir[2][1:]:
+            pool_value_symbols(idx[2][1], acc, True)
+    elif ir[0] in "AU":
+        for a in ir[2]:
+            pool_value_symbols(a, acc, inside)
+    return acc
+
+
 def has_unhashable(ir):
     if ir[0] == "U" and any(a[0] == "u" for a in ir[3]):
         return True
@@ -42,11 +71,13 @@ def has_unhashable(ir):
 
 
 class Gen:
-    def __init__(self, seed, helpers=False):
+    def __init__(self, seed, helpers=False, picklable=False, poolsum=False):
         self.r = random.Random(seed)
         self.dec = U.decorated()
         self.names = sorted(self.dec)
-        self.helpers = helpers
+        self.helpers = helpers          # helper classes at the root (C15)
+        self.picklable = picklable      # only attribute values that pickle can handle
+        self.poolsum = poolsum          # PoolSum with symbolic pool values at the root and nested (C14)
 
     def leaf(self):
         r = self.r
@@ -75,6 +106,18 @@ class Gen:
             if f.name == "angular_momentum":
                 args.append(r.choice([("N", 0, 1), ("N", 1, 1), ("N", 2, 1), ("Y", "Symbol('L')")]))
                 continue
+            if f.name in ("beta", "angle"):
+                # scalar slots of the matrix classes: an array expression here unfolds to a NON-commutative
+                # ArrayMultiplication inside a product that was ordered while it was still commutative
+                args.append(("Y", r.choice(["Symbol('b')", "Symbol('phi')"])))
+                continue
+            if f.name == "n_events":
+                args.append(r.choice([("U", "ampform.kinematics.lorentz.ArraySize", [("Y", "Symbol('p')")], []),
+                                      ("Y", "Symbol('n')")]))
+                continue
+            if self.poolsum and not arr and depth > 1 and r.random() < 0.1:
+                args.append(self.pool_sum(depth - 1))
+                continue
             if depth > 1 and r.random() < 0.45:
                 # arrays nest in arrays, scalars in scalars (SymPy evaluates ill-typed garbage inconsistently)
                 args.append(self.inst(depth - 1, r.choice([n for n in self.names if is_array_class(n) == arr])))
@@ -82,8 +125,21 @@ class Gen:
                 args.append(("Y", r.choice(["Symbol('p')", "Symbol('k')", "Symbol('b')"])))
             else:
                 args.append(self.leaf())
-        attrs = [r.choice(attr_pool(f.name)) for f in U.attr_fields(c)]
+        attrs = [r.choice(attr_pool(f.name, self.picklable)) for f in U.attr_fields(c)]
         return ("U", q, args, attrs)
+
+    def pool_sum(self, depth):
+        """PoolSum(i**? * f, (i, (values...))) with SYMBOLIC pool values; the summand is a scalar instance."""
+        r = self.r
+        i = ("Y", "Symbol('i')")
+        scalar = [n for n in self.names if not is_array_class(n)]
+        body = r.choice([("A", "sympy.core.mul.Mul", [i, self.inst(max(depth, 1), r.choice(scalar))]),
+                         ("A", "sympy.core.power.Pow", [("Y", "Symbol('x')"), i]),
+                         ("A", "sympy.core.add.Add", [i, ("Y", r.choice(SYMS[:5]))])])
+        vals = [("Y", r.choice(["Symbol('a')", "Symbol('c')"])), r.choice([("N", 2, 1), ("Y", "Symbol('c2')"), ("N", 3, 2)])]
+        if r.random() < 0.3:
+            vals.append(("N", 5, 1))
+        return ("A", POOLSUM, [body, ("A", TUPLE, [i, ("A", TUPLE, vals)])])
 
     def helper(self, depth):
         r = self.r
@@ -103,7 +159,10 @@ class Gen:
     def tree(self, depth):
         """(sympy object, IR) of a random tree; IR is re-read from the constructed object."""
         for _ in range(50):
-            ir = self.helper(depth) if (self.helpers and self.r.random() < 0.25) else self.inst(depth)
+            if self.poolsum and self.r.random() < 0.12:
+                ir = self.pool_sum(depth)
+            else:
+                ir = self.helper(depth) if (self.helpers and self.r.random() < 0.25) else self.inst(depth)
             try:
                 obj = U.from_ir(ir)
                 return obj, U.to_ir(obj)
@@ -135,11 +194,18 @@ class Gen:
         """kind, expression rule [(key_ir, val_ir)], attribute rule [(attr, attr)]"""
         r = self.r
         subs = self.subtrees(ir)
-        syms = sorted({t[1] for t in subs if t[0] == "Y"})
+        # bound indices of a PoolSum are never keys (C18; side condition `avoids` of the theorem)
+        syms = sorted({t[1] for t in subs if t[0] == "Y"} - ({"Symbol('i')"} if has_head(ir, POOLSUM) else set()))
         kind = r.choice(["sym2sym", "sym2num", "sym2expr", "sub2sym", "attr", "sym2sym", "sym2num"])
         if has_array(ir) and kind in ("sym2num", "sym2expr"):
             kind = "sym2sym"
         er, ar = [], []
+        pv = sorted(pool_value_symbols(ir))
+        if pv and r.random() < 0.6:
+            # a map that touches ONLY the pool values of a PoolSum
+            k = r.choice(pv)
+            v = ("N", *r.choice([(1, 1), (7, 1), (5, 2)])) if r.random() < 0.6 else ("Y", "Symbol('t')")
+            return "poolvalue", [(("Y", k), v)], []
         if kind in ("sym2sym", "sym2num", "sym2expr") and syms:
             for k in r.sample(syms, min(len(syms), r.choice([1, 1, 2]))):
                 if kind == "sym2sym":
@@ -157,7 +223,7 @@ class Gen:
                         else ("N", *r.choice([(2, 1), (3, 2), (5, 1), (7, 4)]))
                 er.append((("Y", k), v))
         elif kind == "sub2sym":
-            cand = [t for t in subs[1:] if t[0] == "U"] or [t for t in subs if t[0] == "Y"]
+            cand = [t for t in subs[1:] if t[0] == "U"] or [t for t in subs if t[0] == "Y" and t[1] in syms]
             if cand:
                 er.append((r.choice(cand), ("Y", "Symbol('t')")))
         else:
@@ -165,7 +231,7 @@ class Gen:
             if ats:
                 a = r.choice(ats)
                 pool = [("n",), ("s", "other"), ("c", "ampform.dynamics.phasespace.PhaseSpaceFactorAbs"),
-                        ("o", "uneval_ir.pool_function")]
+                        ("o", "uneval_ir.pool_function"), ("o", "uneval_ir.CLOSURE_B")]
                 ar.append((a, r.choice([p for p in pool if p != a])))
             elif syms:
                 er.append((("Y", syms[0]), ("Y", "Symbol('t')")))
@@ -191,6 +257,23 @@ def coq_smap(er):
     return "[" + "; ".join(f"({U.cstr(k[1])}, {U.coq(v)})" for k, v in er) + "]"
 
 
+@implement_doit_method
+class LegacyExpr(UnevaluatedExpression):
+    """A user class on the deprecated (still exported) UnevaluatedExpression base, with a custom name.
+    Module-level: picklable by reference, also in a fresh process and with protocols 2/3 (which pickle
+    `cls.__new__` by qualified name when __getnewargs_ex__ supplies keyword arguments)."""
+
+    def __new__(cls, x, y, name=None, **hints):
+        return create_expression(cls, x, y, name=name, **hints)
+
+    def evaluate(self):
+        x, y = self.args
+        return x ** 2 + y
+
+    def _latex(self, printer, *args):
+        return self._name or "legacy"
+
+
 def default_instances():
     """Every decorated class on default-ish arguments (plain symbols), plus helper classes."""
     out = []
@@ -210,7 +293,10 @@ def default_instances():
 
     p = FourMomentumSymbol("p", shape=[])   # shape-less, like the momenta of a formulated model
     out += [PoolSum(x ** i, (i, (1, 2, 3))), ComplexSqrt(x), ArraySum(p, p), ArrayAxisSum(p, 0),
-            ArrayMultiplication(p, p), MatrixMultiplication(p, p), ArraySlice(p, (slice(None), 0))]
+            ArrayMultiplication(p, p), MatrixMultiplication(p, p), ArraySlice(p, (slice(None), 0)),
+            ArrayAxisSum(p), ArrayAxisSum(p ** 2, axis=1), PoolSum(x ** i, (i, (sp.Symbol("a"), 2))),
+            LegacyExpr(x, sp.Symbol("y"), name="N_x"), LegacyExpr(x, 2),
+            sp.sqrt(LegacyExpr(x, sp.Symbol("y"), name="inner")) + 1]
     return out
 
 
